@@ -16,7 +16,7 @@ use serde_json::json;
 use std::collections::HashMap;
 use std::io::{BufRead, Write};
 
-pub const RULE: &str = "emit phase: 16 worker PROCESSES x 4 threads; every thread performs (1) HOMOGENEOUS sequences - n consecutive calls of ONE entry point with identical arguments (n = 80 per thread and group in the quick tier, 320 in the thorough tier, four times that for the cheap entry points SecretKey::new, ProofCommitmentChallenge::new and sign_crypt - i.e. 2560 / 10240 sign_crypt calls per PROCESS and N = 20480 / 81920 over all processes; a generator that recycles state with a period <= n is visible whatever happens in between) for SecretKey::new, ProofCommitmentChallenge::new, sign_crypt, encrypt_time_lock, encrypt_key_el_gamal, ProofCommitment::generate, split - (3) ARGUMENT CLASSES: k = max(6, n/12) consecutive calls with identical arguments per class for encrypt_time_lock (3 schemes x identifier lengths {0,1,31,32,33,64,200} and x message lengths of the same set), sign_crypt (3 schemes x the same message lengths), ProofCommitment::generate and ProofOfKnowledgeTimestamp::generate (3 schemes), ElGamal with plaintext keys 1, r-1, 2, split with (2,2),(2,3),(3,5),(10,20): freshness must not depend on what is encrypted - and (2) an INTERLEAVED sequence in which every randomized entry point is called once per round and ALL observables are logged, for both groups: SecretKey::new, SecretKey::split (3-of-5: the polynomial coefficients a1,a2 are recovered from the shares), ProofCommitmentChallenge::new, PublicKey::sign_crypt (u, v), encrypt_time_lock (u, v), encrypt_key_el_gamal (c1), encrypt_key_el_gamal_with_proof (c1 and r1 = P*blinder_proof - c1*challenge), ProofCommitment::generate (u and secret x), ProofOfKnowledgeTimestamp::generate (u), and the trait-level BlsElGamal::seal_scalar_with_proof with a caller-supplied blinder (its proof nonce r1 must still be fresh). Each observable is logged as {pid, tid, seq, entry, pool, value}. check phase (offline, over ALL logs): within each pool - scalars per suite, key-group points per suite, signature-group points per suite, masks - every value must be globally distinct across calls, threads and processes; pools are shared across entry points so a value reused between two entry points (e.g. the same r in signcryption and time-lock) shows as equal u. A collision is reported with both witnesses. distinct_nontrivial = number of distinct observable values seen; evaluations = number of observables checked. A generator that is weak but never repeats is observationally indistinguishable and not claimed.";
+pub const RULE: &str = "emit phase: 16 worker PROCESSES x 4 threads; every thread performs (1) HOMOGENEOUS sequences - n consecutive calls of ONE entry point with identical arguments (n = 80 per thread and group in the quick tier, 320 in the thorough tier, four times that for the cheap entry points SecretKey::new, ProofCommitmentChallenge::new and sign_crypt - i.e. 2560 / 10240 sign_crypt calls per PROCESS and N = 20480 / 81920 over all processes; a generator that recycles state with a period <= n is visible whatever happens in between) for SecretKey::new, ProofCommitmentChallenge::new, sign_crypt, encrypt_time_lock, encrypt_key_el_gamal, ProofCommitment::generate, split - (3) ARGUMENT CLASSES: k = max(6, n/12) consecutive calls with identical arguments per class for encrypt_time_lock (3 schemes x identifier lengths {0,1,31,32,33,64,200} and x message lengths of the same set), sign_crypt (3 schemes x the same message lengths), ProofCommitment::generate and ProofOfKnowledgeTimestamp::generate (3 schemes), ElGamal with plaintext keys 1, r-1, 2, split with (2,2),(2,3),(3,5),(10,20): freshness must not depend on what is encrypted - and (2) an INTERLEAVED sequence in which every randomized entry point is called once per round and ALL observables are logged, for both groups: SecretKey::new and its other doors (BlsSignature::new_secret_key, SecretKeyEnum::new, SecretKey::random / BlsSignature::random_secret_key with a freshly OS-seeded generator), the challenge doors (ProofCommitmentChallenge::new / ::random, BlsSignature::new_proof_challenge / random_proof_challenge), split_with_rng, SecretKey::split (3-of-5: the polynomial coefficients a1,a2 are recovered from the shares), ProofCommitmentChallenge::new, PublicKey::sign_crypt (u, v), encrypt_time_lock (u, v), encrypt_key_el_gamal (c1), encrypt_key_el_gamal_with_proof (c1 and r1 = P*blinder_proof - c1*challenge), ProofCommitment::generate (u and secret x), ProofOfKnowledgeTimestamp::generate (u), and the trait-level BlsElGamal::seal_scalar_with_proof with a caller-supplied blinder (its proof nonce r1 must still be fresh). Each observable is logged as {pid, tid, seq, entry, pool, value}. check phase (offline, over ALL logs): within each pool - scalars per suite, key-group points per suite, signature-group points per suite, masks - every value must be globally distinct across calls, threads and processes; pools are shared across entry points so a value reused between two entry points (e.g. the same r in signcryption and time-lock) shows as equal u. A collision is reported with both witnesses. distinct_nontrivial = number of distinct observable values seen; evaluations = number of observables checked. A generator that is weak but never repeats is observationally indistinguishable and not claimed.";
 
 #[derive(Serialize, Deserialize, Clone)]
 struct Ev {
@@ -169,6 +169,31 @@ fn one_thread<C: Suite>(pid: u32, tid: u32, n: u32, out: &mut Vec<Ev>) {
         push(seq, "BlsSignature::new_secret_key", "scalar", k2.to_be_bytes().to_vec());
         let c = ProofCommitmentChallenge::<C>::new();
         push(seq, "ProofCommitmentChallenge::new", "scalar", c.to_be_bytes().to_vec());
+        // the other doors to the same operations: the facade, the curve-tagged wrapper, and the
+        // variants that take the caller's generator (handed a freshly OS-seeded one each time)
+        {
+            use rand_core::SeedableRng;
+            let c2 = BlsSignature::<C>::new_proof_challenge();
+            push(seq, "BlsSignature::new_proof_challenge", "scalar", c2.to_be_bytes().to_vec());
+            let e = match SecretKeyEnum::new(C::CURVE) {
+                SecretKeyEnum::G1(k) => k.to_be_bytes().to_vec(),
+                SecretKeyEnum::G2(k) => k.to_be_bytes().to_vec(),
+            };
+            push(seq, "SecretKeyEnum::new", "scalar", e);
+            let k3 = SecretKey::<C>::random(rand_chacha::ChaCha20Rng::from_entropy());
+            push(seq, "SecretKey::random(fresh rng)", "scalar", k3.to_be_bytes().to_vec());
+            let k4 = BlsSignature::<C>::random_secret_key(rand_chacha::ChaCha20Rng::from_entropy());
+            push(seq, "BlsSignature::random_secret_key(fresh rng)", "scalar", k4.to_be_bytes().to_vec());
+            let c3 = ProofCommitmentChallenge::<C>::random(rand_chacha::ChaCha20Rng::from_entropy());
+            push(seq, "ProofCommitmentChallenge::random(fresh rng)", "scalar", c3.to_be_bytes().to_vec());
+            let c4 = BlsSignature::<C>::random_proof_challenge(rand_chacha::ChaCha20Rng::from_entropy());
+            push(seq, "BlsSignature::random_proof_challenge(fresh rng)", "scalar", c4.to_be_bytes().to_vec());
+            if let Ok(shares) = sk.split_with_rng(2, 3, rand_chacha::ChaCha20Rng::from_entropy()) {
+                let mut v = shares[0].0.value_vec();
+                v.reverse();
+                push(seq, "SecretKey::split_with_rng(fresh rng)", "scalar", v);
+            }
+        }
         if let Ok(shares) = sk.split(3, 5) {
             // f(x) = s + a1 x + a2 x^2 ; recover a1, a2 from the shares with ids 1,2,3
             let val = |i: usize| -> Option<(u8, RS)> {
